@@ -13,6 +13,26 @@ import octoprint_excluderegion as ER
 
 LOG = logging.getLogger('verif.plugin'); LOG.addHandler(logging.NullHandler()); LOG.propagate = False
 LOG.setLevel(logging.CRITICAL)
+
+
+class _Format(logging.Handler):
+    """formats every record and throws the text away; like the standard handlers it never lets a formatting error escape"""
+    def emit(self, record):
+        try:
+            record.getMessage()
+        except Exception:
+            pass
+
+
+LOG_DEBUG = logging.getLogger('verif.plugin.debug'); LOG_DEBUG.addHandler(_Format()); LOG_DEBUG.propagate = False
+LOG_DEBUG.setLevel(logging.DEBUG)
+_instances = [0]
+
+
+def pick_logger():
+    """every fifth instance runs with debug logging on: the code inside `if isDebug` blocks is part of the filter too"""
+    _instances[0] += 1
+    return LOG_DEBUG if _instances[0] % 5 == 0 else LOG
 _APP = flask.Flask('verif')
 
 
@@ -43,7 +63,7 @@ def new_plugin(**settings):
     p._identifier = 'excluderegion'
     p._plugin_name = 'Exclude Region'
     p._plugin_version = '0'
-    p._logger = LOG
+    p._logger = pick_logger()
     p._plugin_manager = PM()
     p._settings = octoprint.plugin.plugin_settings('excluderegion', defaults=p.get_settings_defaults(),
                                                    get_preprocessors=p.get_settings_preprocessors()[1],
